@@ -94,6 +94,11 @@ class C06(props.BaseProp):
             elif weighted and not big:
                 cg.weight_variant(r2, c)
             cases.append(c)
+            if weighted and not big and not c.get("wdiv") and i % 12 == 5:
+                nm = cg.gen_names(r2, 5 + r2.below(2))
+                c["nodes"], c["edges"] = (nm if r2.below(2) else nm[:r2.below(4)]), cg.gadget_decrease_key(r2, nm)
+                c["spec"] = (c["spec"][0], 0, c["spec"][2], 2, 0, 1)
+                c.pop("wscale", None)
             if i % 1500 == 750:
                 # above 1024 nodes (oracle only): a size-dependent slip in the parallel arm
                 h = cg.huge_case(r2, "ch%d" % i)
